@@ -20,7 +20,10 @@ POOL_X = POOL + [("ls\u2028ep.txt", b"linesep"), ("d/é è", DIR), ("d/é è/\U0
                  ("my.ascmhl", DIR), ("my.ascmhl/inner.txt", b"inside a folder whose name contains ascmhl"),
                  ("emp/emp2", DIR), ("0001_root_2020-01-01_000000Z.mhl", b"media file named like a manifest"),
                  (".hid", DIR), (".hid/in.txt", b"in a hidden folder"), ("e\u0301.txt", b"decomposed name"), ("back\\slash.txt", b"backslash"),
-                 (" lead", b"leading blank"), ("trail ", DIR), ("trail /t.txt", b"in a folder with a trailing blank")]
+                 (" lead", b"leading blank"), ("trail ", DIR), ("trail /t.txt", b"in a folder with a trailing blank"),
+                 # names that OTHER tools ignore by default - this one only excludes .DS_Store and its own ascmhl folders
+                 ("Thumbs.db", b"windows thumbnails"), ("._a.txt", b"AppleDouble twin"), (".git", DIR), (".git/config", b"[core]"),
+                 ("desktop.ini", b"[.ShellClassInfo]"), ("x.tmp~", b"editor backup")]
 FSETS = [["xxh64"], ["c4", "md5"], list(ref.FORMATS_CLI)]
 
 
